@@ -23,7 +23,8 @@ API (stable, shared):
                           offset field points to)}]
         entries         one dict per directory entry, in directory order:
                         non-local: {kind:'xref', index, name, namespace}
-                        local:     the decoded blob (see below) + index
+                        local:     the decoded blob (see below) + dir_index (and index, except for
+                                   function blobs whose own bit-field is called index)
         attributes      [{at, offset, name, value, name_off, value_off}] in table order
         extents         every fixed-size structure met while decoding, as
                         {at, size, what} (deduplicated, sorted by at) — input of the layout
@@ -563,7 +564,9 @@ class _Dec(object):
                 raise DecodeError('directory entry %d has blob type %d' % (e['index'], bt))
             if b.get('blob_type') != bt:
                 raise DecodeError('directory entry %d says blob type %d, blob at %d says %s' % (e['index'], bt, at, b.get('blob_type')))
-            b['index'] = e['index']
+            b['dir_index'] = e['index']
+            if bt != 1:                 # a FunctionBlob has a bit-field called index of its own: keep it
+                b['index'] = e['index']
             entries.append(b)
         out['entries'] = entries
         # attributes
@@ -624,7 +627,7 @@ def walk_blobs(dec):
             for x in rec(path + [('callback', 0)], b['callback']):
                 yield x
     for e in dec['entries']:
-        for x in rec([e['index']], e):
+        for x in rec([e.get('dir_index', e.get('index'))], e):
             yield x
 
 
